@@ -124,7 +124,15 @@ def handle (st : St) (line : String) : St × String :=
         | none => some (.items (o.items.filter isSel))
       | none => none
     let n := (all.filter fun (c, _, _) => c == 'T').length
-    let res := f.schemas.foldl (fun (acc : List String × List String) s =>
+    -- the schemas in the order in which they are PRINTED (a deferred schema comes after its suppliers), then the unprinted ones
+    let textualP := st.pschemas.reverse.map fun (n, os) => (n, os.reverse)
+    let orderedP := (ExpressHash.dictOrder textualP).map fun (n, os) =>
+      let own := (ExpressHash.dictOrder ((os.filter (fun x => x.1 != 'S')).map fun (c, k, o) => (k, (c, o)))).map (·.2)
+      ({ name := n, types := (own.filter (·.1 == 'T')).map (·.2), ents := (own.filter (·.1 == 'E')).map (·.2),
+         stubs := (os.filter (fun x => x.1 == 'S')).map (·.2.2) } : Pass.PSchema)
+    let printedNames := ((Pass.printFile Generated.CxxPass.sweepLoop Generated.CxxPass.enumLastCase orderedP 60).printed.map (·.1)).eraseDups
+    let inPrintOrder := (printedNames.filterMap fun n => f.schemas.find? (·.name == n)) ++ f.schemas.filter (fun s => !printedNames.contains s.name)
+    let res := inPrintOrder.foldl (fun (acc : List String × List String) s =>
         let roots := (s.decls.filterMap fun d => match d with
           | .type t => some (s.name ++ "." ++ t.name)
           | _ => none).filter isSel
